@@ -427,7 +427,7 @@ def source(spec):
     if log:
         lines += ["!log-variables", "    " + ", ".join(names + meas_names(spec))]
     lines.append("!transition-equations")
-    for i in range(spec["n"]):
+    for i in (spec.get("eq_order") or range(spec["n"])):
         lines.append("    " + (_render_multiplicative(spec, i) if log else _render_additive(spec, i)) + ";")
     if spec["meas"]:
         lines.append("!measurement-equations")
